@@ -1123,7 +1123,29 @@ func (o *oracleCtx) c16() {
 			}
 		}
 		if !(p.bandwidth >= p.avgBandwidth && p.avgBandwidth > 0) || !p.hasAvg {
-			o.fail("C16", vn+":bandwidth-order", "BANDWIDTH %d AVERAGE-BANDWIDTH %d", p.bandwidth, p.avgBandwidth)
+			// a narrower signature for the one known way to get there: every listed segment of
+			// streams[0] has a zero duration (forced rotation at an equal DTS)
+			allZero := len(rot.snap.Streams) > 0
+			if allZero {
+				st := rot.snap.Streams[0]
+				n := 0
+				for i := range st.SegmentIDs {
+					if st.SegmentIDs[i] >= 0 {
+						n++
+						if st.SegmentDurations[i] != 0 {
+							allZero = false
+						}
+					}
+				}
+				if n == 0 {
+					allZero = false
+				}
+			}
+			if allZero && p.hasAvg && p.bandwidth == 0 && p.avgBandwidth == 0 {
+				o.fail("C16", vn+":bandwidth-zero:all-listed-segments-zero-duration", "BANDWIDTH 0 AVERAGE-BANDWIDTH 0: every listed segment has a zero duration")
+			} else {
+				o.fail("C16", vn+":bandwidth-order", "BANDWIDTH %d AVERAGE-BANDWIDTH %d", p.bandwidth, p.avgBandwidth)
+			}
 		}
 		if len(rot.snap.Streams) == 1 {
 			s := rot.snap.Streams[0]
